@@ -23,6 +23,8 @@ Local Notation scan_loop := (@scan_loop K V T).
 Local Notation dbg_assert := (@dbg_assert K V T debug).
 Local Notation dec_len := (@dec_len K V T debug).
 Local Notation unwind_pair := (unwind_pair E).
+Local Notation unwind_args := (unwind_args E).
+Local Notation drop_args := (drop_args E).
 Local Notation unwind_pairs := (unwind_pairs E).
 Local Notation unwind_key := (unwind_key E).
 Local Notation drop_key := (drop_key E).
@@ -132,7 +134,7 @@ Definition remove_entry (q : Q) : M (option (K * V)) :=
    are written into a slot: a panic before that (a panicking comparison, the
    debug assertion, the bounds check of pairs[i]) destroys them while unwinding. *)
 Definition insert_ii (k : K) (v : V) (update_key : bool) : M (nat * option (K * V)) :=
-  r <- on_unwind (unwind_pair (k, v)) (scan (test_k k)) ;;
+  r <- on_unwind (unwind_args k v) (scan (test_k k)) ;;
   match r with
   | Some i =>
       if update_key then
@@ -142,7 +144,7 @@ Definition insert_ii (k : K) (v : V) (update_key : bool) : M (nat * option (K * 
   | None =>
       i <- get_len ;;
       c <- get_cap ;;
-      on_unwind (unwind_pair (k, v)) (dbg_assert (i <? c) ;; check_index i) ;;
+      on_unwind (unwind_args k v) (dbg_assert (i <? c) ;; check_index i) ;;
       p_write_checked i (k, v) ;;
       set_len (S i) ;;
       ret (i, None)
@@ -151,14 +153,14 @@ Definition insert_ii (k : K) (v : V) (update_key : bool) : M (nat * option (K * 
 (* src/map.rs:728-749  insert_ii_for_full *)
 Definition insert_ii_for_full (k : K) (v : V) (update_key : bool)
   : M (option (nat * (K * V))) :=
-  r <- on_unwind (unwind_pair (k, v)) (scan (test_k k)) ;;
+  r <- on_unwind (unwind_args k v) (scan (test_k k)) ;;
   match r with
   | Some i =>
       if update_key then
         old <- p_replace i (fun _ => (k, v)) ;; ret (Some (i, old))
       else
         old <- p_replace i (fun p => (fst p, v)) ;; ret (Some (i, (k, snd old)))
-  | None => drop_pair (k, v) ;; ret None
+  | None => drop_args k v ;; ret None
   end.
 
 (* src/map.rs:666-694  insert_i: explicit loop, unchecked accessors *)
@@ -178,7 +180,7 @@ Fixpoint insert_i_loop (k : K) (fuel i : nat) : M (nat * option (K * V)) :=
 
 Definition insert_i (k : K) (v : V) (update_key : bool) : M (nat * option (K * V)) :=
   n <- get_len ;;
-  '(target, existing) <- on_unwind (unwind_pair (k, v)) (insert_i_loop k n 0) ;;
+  '(target, existing) <- on_unwind (unwind_args k v) (insert_i_loop k n 0) ;;
   (if target =? n then set_len (S n) else ret tt) ;;
   match existing, update_key with
   | Some (old_k, old_v), false =>
@@ -318,7 +320,8 @@ Definition clone_pair (p : K * V) : M (K * V) :=
   emit (List.map EvCloneK (idK E (fst p))) ;;
   k' <- cbo (fun s => cloneK E s (fst p)) ;;
   emit (List.map EvCloneV (idV E (snd p))) ;;
-  v' <- cbo (fun s => cloneV E s (snd p)) ;;
+  (* <(K, V) as Clone>::clone: when the value's clone panics the fresh key is destroyed on unwinding *)
+  v' <- on_unwind (unwind_key k') (cbo (fun s => cloneV E s (snd p))) ;;
   ret (k', v').
 
 Fixpoint clone_loop (src : map) (n i : nat) : M unit :=
@@ -335,10 +338,20 @@ Fixpoint clone_loop (src : map) (n i : nat) : M unit :=
       end
   end.
 
+(* A container (or the rest of a Drain) destroyed WHILE UNWINDING: every element is destroyed; a Drop
+   that panics during unwinding aborts the process, which is outside the model, so its answer is ignored
+   (as in unwind_pair). *)
+Fixpoint unwind_range (n i : nat) : M unit :=
+  match n with
+  | 0 => ret tt
+  | S n' => p <- p_read i ;; unwind_pair p ;; unwind_range n' (S i)
+  end.
+Definition unwind_map : M unit := n <- get_len ;; unwind_range n 0.
+
 (* unwinding over a locally owned container runs its destructor *)
 Definition finally_drop {A} (c : M A) : M A :=
   fun w => match c w with
-           | Panic w' => match drop_map w' with
+           | Panic w' => match unwind_map w' with
                          | UB => UB
                          | Ok _ w'' => Panic w''
                          | Panic w'' => Panic w''
@@ -419,6 +432,9 @@ Definition cursor_len (c : cursor) : nat := snd c - fst c.
 
 Definition drain_drop (c : cursor) : M unit :=
   drop_range (cursor_len c) (fst c).
+(* Drop for Drain while unwinding *)
+Definition unwind_drain (c : cursor) : M unit :=
+  unwind_range (cursor_len c) (fst c).
 
 (* ---- src/iterators.rs ---- *)
 Definition iter : M cursor := p_prefix ;; n <- get_len ;; ret (0, n).
